@@ -327,3 +327,24 @@ func VH_C13_encrypt_decrypt_keep_peers_in_sync() {
 	verifAssert(ta == tb, "C13: both peers squeeze the same tag afterwards")
 	verifCover("synced")
 }
+
+// C02 rests on the duplex binding EVERY byte it is given: an absorbed or
+// encrypted byte that does not reach the state can be altered in flight
+// without changing any later MAC. The one-step differentials are therefore
+// registered under C02 as well.
+//
+//verif:prop C02
+//verif:replay none
+//verif:solver cvc5
+//verif:bounds as VH_C13_absorb_equals_specification
+//verif:cover compared
+//verif:timeout 600
+func VH_C02_duplex_absorb_binds_every_byte() { VH_C13_absorb_equals_specification() }
+
+//verif:prop C02
+//verif:replay none
+//verif:solver cvc5
+//verif:bounds as VH_C13_encrypt_decrypt_equal_specification
+//verif:cover encrypt;decrypt;wrong-mode-panics
+//verif:timeout 600
+func VH_C02_duplex_crypt_binds_every_byte() { VH_C13_encrypt_decrypt_equal_specification() }
